@@ -101,6 +101,19 @@ pub fn read_stub(_f: &mut File, buf: &mut [u8]) -> io::Result<usize> {
         Ok(n)
     }
 }
+/// The same file model without the failing branch: the returned `Result` is `Ok` on every
+/// path, so CBMC folds the discriminant and never walks `io::Error`'s drop glue (whose
+/// `Box<dyn Error>` payload fans out into every error type of the program, including
+/// anyhow's backtrace-carrying wrappers) inside `read_exact`'s retry loop.
+pub fn read_ok_stub(_f: &mut File, buf: &mut [u8]) -> io::Result<usize> {
+    unsafe {
+        let rem = FILE_LEN - FILE_POS;
+        let n = if buf.len() < rem { buf.len() } else { rem };
+        buf[..n].copy_from_slice(&FILE_DATA[FILE_POS..FILE_POS + n]);
+        FILE_POS += n;
+        Ok(n)
+    }
+}
 /// `File` does not override `read_exact`; the provided method's retry loop asks the
 /// bit-packed `io::Error` whether it is `Interrupted`, which CBMC cannot fold.  The in-memory
 /// file never reports `Interrupted` (C14 covers interrupted reads), so the answer is `false`.
@@ -163,8 +176,9 @@ pub unsafe fn alloc_stub(l: std::alloc::Layout) -> *mut u8 {
     let p = std::alloc::alloc_zeroed(l);
     core::ptr::write_bytes(p, 0xAA, l.size());
     // every Vec/String/Box allocation passes through here; the backing block of
-    // `load_mem` is the one with the 64-byte alignment
-    if l.align() >= 64 {
+    // `load_mem` is the over-aligned one (64 on the pinned tree; anything >= 16 is
+    // recorded so that a lowered alignment is seen by the assertions, not hidden)
+    if l.align() >= 16 {
         LAST_ALLOC = p;
         LAST_SIZE = l.size();
         LAST_ALIGN = l.align();
@@ -198,6 +212,13 @@ pub fn put_file(data: &[u8], n: usize) -> std::path::PathBuf {
 #[macro_export]
 macro_rules! fs_harness {
     ($(#[$m:meta])* $name:ident @ $unw:literal => $body:block) => {
+        $crate::fs_harness_r!(crate::fsenv::read_stub; $(#[$m])* $name @ $unw => $body);
+    };
+}
+/// `fs_harness!` with the stub for `<File as Read>::read` chosen by the caller.
+#[macro_export]
+macro_rules! fs_harness_r {
+    ($read:path; $(#[$m:meta])* $name:ident @ $unw:literal => $body:block) => {
         #[cfg_attr(kani, kani::proof)]
         #[cfg_attr(kani, kani::unwind($unw))]
         #[cfg_attr(kani, kani::stub(std::path::Path::metadata, crate::fsenv::metadata_stub))]
@@ -211,7 +232,7 @@ macro_rules! fs_harness {
         #[cfg_attr(kani, kani::stub(std::fs::OpenOptions::truncate, crate::fsenv::oo_truncate_stub))]
         #[cfg_attr(kani, kani::stub(std::fs::OpenOptions::append, crate::fsenv::oo_append_stub))]
         #[cfg_attr(kani, kani::stub(std::fs::OpenOptions::open, crate::fsenv::oo_open_stub))]
-        #[cfg_attr(kani, kani::stub(<std::fs::File as std::io::Read>::read, crate::fsenv::read_stub))]
+        #[cfg_attr(kani, kani::stub(<std::fs::File as std::io::Read>::read, $read))]
         #[cfg_attr(kani, kani::stub(std::io::Error::is_interrupted, crate::fsenv::not_interrupted_stub))]
         #[cfg_attr(kani, kani::stub(<anyhow::Error as core::convert::From<std::io::Error>>::from, crate::fsenv::anyhow_from_stub))]
         #[cfg_attr(kani, kani::stub(<std::fs::File as std::io::Read>::read_buf, crate::fsenv::read_buf_stub))]
